@@ -235,3 +235,25 @@ def spec_grid(rng, n=None, full=False):
     keep = [["-", "-", "-", "-"], ["-", "-", "7", "-"], ["-", ">", "7", "2"], ["x2a", "^", "12", "-"], ["xc3a9", "<", "4", "3"],
             ["-", "-", "-", "1"], ["x30", ">", "16", "5"], ["-", "^", "3", "0"]]
     return keep + rng.sample(out, max(0, n - len(keep)))
+
+
+def model_query(prop: str, items, queries_per_item):
+    """run the extracted model on candidate definitions with the given [(kind, args)] per item;
+    -> list (per item) of list of observations"""
+    d = os.path.join(R.WORK, prop)
+    os.makedirs(d, exist_ok=True)
+    path = os.path.join(d, "candidates2.txt")
+    idx = []
+    with open(path, "w") as f:
+        for k, it in enumerate(items):
+            f.write("def %d %s\n" % (k, it.sexp()))
+        n = 0
+        for k, it in enumerate(items):
+            row = []
+            for kind, args in queries_per_item:
+                f.write("q %d %d %s%s\n" % (n, k, kind, "".join(" " + str(a) for a in args)))
+                row.append(n)
+                n += 1
+            idx.append(row)
+    obs = R.run_model(path)
+    return [[obs.get(n, "") for n in row] for row in idx]
